@@ -7,6 +7,14 @@ import CookModel.Side.Aisle
 -/
 namespace Cook.Aisle
 
+/-- results of `parse` can be compared (used by the `example`s and the driver) -/
+instance instDecEqResult : DecidableEq (Except Err Conf) := fun a b =>
+  match a, b with
+  | .ok x, .ok y => if h : x = y then isTrue (by rw [h]) else isFalse (fun e => by cases e; exact h rfl)
+  | .error x, .error y => if h : x = y then isTrue (by rw [h]) else isFalse (fun e => by cases e; exact h rfl)
+  | .ok _, .error _ => isFalse (fun e => by cases e)
+  | .error _, .ok _ => isFalse (fun e => by cases e)
+
 /-- `sp` is the byte span of an occurrence of `text` inside `input`
     (so it is inside the input, and both ends are char boundaries) -/
 def SpanOf (input : List Char) (sp : Span) (text : List Char) : Prop :=
